@@ -28,7 +28,7 @@ func exec(op string) vlib.Res {
 	switch f[0] {
 	case "rw", "wg", "res", "burst", "eff", "proc":
 		return execLocal(op)
-	case "inl", "bw":
+	case "inl", "bw", "zl", "gl":
 		return execLocal(op)
 	case "dedup", "sys", "ing":
 		if os.Getenv("C11_NOCHILD") != "" {
@@ -57,6 +57,10 @@ func execLocal(op string) vlib.Res {
 		return execRes(f)
 	case "burst":
 		return execBurst(f)
+	case "zl":
+		return execZL(f)
+	case "gl":
+		return execGL(f)
 	case "ing":
 		return execIng(f)
 	case "inl":
